@@ -308,6 +308,43 @@ func init() {
 			sb.WriteString(untranslatable("attrBodies"))
 		}
 
+		// round 4b: what the stage closures of the four simple helpers return, as source text
+		{
+			var parts []string
+			good := true
+			for _, p := range [][2]string{{"timeformat", "kfTimeFormat"}, {"duration", "kfDuration"}, {"durationformat", "kfDurationFormat"}, {"timeattr", "kfTimeAttr"}} {
+				fd := c.Func(file, p[1])
+				if fd == nil || fd.Body == nil {
+					good = false
+					break
+				}
+				var rets []string
+				ast.Inspect(fd.Body, func(n ast.Node) bool {
+					fl, isLit := n.(*ast.FuncLit)
+					if !isLit {
+						return true
+					}
+					ast.Inspect(fl.Body, func(m ast.Node) bool {
+						if r, isRet := m.(*ast.ReturnStmt); isRet {
+							rets = append(rets, squash(r))
+						}
+						return true
+					})
+					return false
+				})
+				if len(rets) == 0 {
+					good = false
+					break
+				}
+				parts = append(parts, fmt.Sprintf("(%s, %s)", leanStr(p[0]), leanStrList(rets)))
+			}
+			if good {
+				fmt.Fprintf(&sb, "/-- the `return` statements of the stage closure of each simple helper as source text (white space removed), in source order -/\ndef stageReturns : List (String × List String) := [\n  %s]\n\n", strings.Join(parts, ",\n  "))
+			} else {
+				sb.WriteString(untranslatable("stageReturns"))
+			}
+		}
+
 		for _, fn := range []string{"namedTimeFormatToFormat", "smartDateParseWrapper", "kfTimeParse", "kfTimeFormat", "kfDuration", "kfDurationFormat",
 			"timeBucketToFormat", "kfBucketTime", "kfTimeAttr", "parseTimezoneLocation"} {
 			c.Fingerprint(file, fn)
